@@ -441,6 +441,12 @@ fn enumerate(
 			if got["outputs"] != after["outputs"] || got["txs"] != after["txs"] || got["contexts"] != after["contexts"] {
 				claims.push("the operation reported success although a write failed, and the wallet is not in the state the complete operation leaves".to_owned());
 			}
+			if got["child"] != after["child"] {
+				claims.push(format!(
+					"the operation reported success although a write failed, and the key indices are {} instead of {} (the next key handed out is one already in use)",
+					got["child"], after["child"]
+				));
+			}
 			let want_files = stored_files(&format!("{}/final", work));
 			let got_files = stored_files(&wdir);
 			if want_files != got_files {
